@@ -169,6 +169,15 @@ CLAIMED = {
             "status, so this is exploration with a TLA+-defined input space.",
             "Trusted: generalisation of file-name exclusions to feature sets; wit-parser's notion of a valid world.",
             "5 C16"),
+    "C14": ("model_checking",
+            "TLA+ ScalarConv.tla (canonical lower/lift on the full i32 domain + evaluator of a term language), self-checked by ASSUME in "
+            "MC_ScalarConv.tla; the conversion expressions of all 7 backends are extracted from a probe world's wrappers, parsed "
+            "(fail-closed) and judged by TLC (Obs_ScalarConv.tla)",
+            "7 backends x 12 scalar types x {import, export} x {lower, lift}: 8-bit types on all 256 low parts x 7 upper-bit patterns, "
+            "16-bit on boundaries + stride, 32-bit on boundary bit patterns; 64-bit/float conversions must be pure cast chains.",
+            "Trusted: the extractor's wrapper shapes and the parser's reading of each language's casts. No Apalache run: the wide "
+            "conversions contain no arithmetic to solve.",
+            "12.6"),
     "C15": ("exploration",
             "Determinism.tla judges observations: every (input, backend, variant) unit generated by k independent processes "
             "+ a following --check; inputs from the corpus, WorldGrammar.tla and wide many-interface worlds",
@@ -202,6 +211,23 @@ CLAIMED = {
             "No wasm32 Rust target in the sandbox: cfg(target_arch = \"wasm32\") items are only parsed by rustc and are judged through "
             "the scanner + encoder instead.",
             "5 C09"),
+    "C10": ("model_checking",
+            "same vectors as C05 (MC_RustExec.tla over CallConv/CanonABI, canonical encodings at pointer width 8) driven through the real "
+            "C bindings compiled natively with clang against the type-agnostic host (harness/vhost, C ABI); guest code is generated "
+            "plumbing export->import; values as seen by C code are dumped by path and compared with the spec values",
+            "f(x: T) -> T for 167 types x boundary values + the multi-parameter functions; --no-sig-flattening (with dumps) and the "
+            "default flattening (host-side comparisons only); 1100 cases quick.",
+            "Trusted: clang; member names f<i>/val/tag/is_some/is_err/ptr/len as documented by the C backend; utf16, resources and "
+            "async are not executed.",
+            "12.6"),
+    "C11": ("model_checking",
+            "same run as C10, judged by the ledger: every malloc/calloc/realloc/free of bindings and plumbing is redirected to it, "
+            "host-built memory comes from the bindings' own cabi_realloc; after export call + real post-return no guest block may remain, "
+            "import arguments must stay untouched, no unknown or double free",
+            "the same 1100 cases; plumbing frees owned export arguments with the generated *_free helpers as the README prescribes.",
+            "Trusted: the ledger; the resource part of the property (destructor runs once, any resource name) is covered only statically "
+            "(C13 judges the destructor's export name; finding F-C13-1 fixed).",
+            "12.6"),
     "C12": ("exploration",
             "WorldGrammar.tla worlds (TLC GEN) + adversarial-name worlds + corpus -> real C generator -> clang --target=wasm32 (-Werror) -> "
             "wasm-ld with the component-type object -> wit_component::ComponentEncoder with validation; decoded world and declared string "
